@@ -320,6 +320,51 @@ func main() {
 		c.Rule = "seeded slices of 0-40 key-values over a small hostile key alphabet and all eight value types (NaN payloads, signed zeros, empty and 1000-element slices); each slice is rebuilt in model-preserving permutations/duplications and in single-entry mutations; filters of allow/deny/arbitrary-predicate shape; lookups of present keys, the empty key and every present key's neighbours. distinct = distinct (size class, value types present, filter branch, equality class) signatures"
 		c.Assume = []string{"sets differing only in NaN payload / sign of zero are not asserted equal or unequal (statement does not settle which notion of 'same value' applies)"}
 
+		// what a constructor is given is what the value (and a Set built from it) hands back, bit for bit:
+		// the harness keeps the Go values it passed in, the library's own read-back is not the reference here
+		c.Cases("scalars", c.N(20_000, 200_000), 0, func(k *vf.Case) {
+			r := k.R
+			f := r.InterestingFloat()
+			switch r.Intn(6) {
+			case 0:
+				f = math.Copysign(0, -1)
+			case 1:
+				f = math.Float64frombits(0x7ff8000000000000 | uint64(r.Intn(1<<20)))
+			case 2:
+				f = 0
+			}
+			i := r.InterestingInt64()
+			str := r.HostileString(r.Intn(6))
+			b := r.Bool()
+			for name, kv := range map[string]attribute.KeyValue{"Float64": attribute.Float64("f", f), "Key.Float64": attribute.Key("f").Float64(f), "Float64Value": {Key: "f", Value: attribute.Float64Value(f)}} {
+				if got := kv.Value.AsFloat64(); math.Float64bits(got) != math.Float64bits(f) || kv.Value.Type() != attribute.FLOAT64 {
+					k.Violate("constructor-value-differs", name, fmt.Sprintf("given %016x (%v), holds %016x (%v)", math.Float64bits(f), f, math.Float64bits(got), got), nil)
+				}
+				set := attribute.NewSet(attribute.String("a", "x"), kv, attribute.Int("z", 1))
+				if v, ok := set.Value("f"); !ok || math.Float64bits(v.AsFloat64()) != math.Float64bits(f) {
+					k.Violate("set-value-not-last", "float64 bits", fmt.Sprintf("given %016x (%v), the set holds %016x", math.Float64bits(f), f, math.Float64bits(v.AsFloat64())), nil)
+				}
+				if want := "f=" + strconv.FormatFloat(f, 'g', -1, 64); !strings.Contains(set.Encoded(attribute.DefaultEncoder()), want) && f == f {
+					k.Violate("encoded-mismatch", "float64", fmt.Sprintf("encoding %q lacks %q", set.Encoded(attribute.DefaultEncoder()), want), nil)
+				}
+			}
+			if v := attribute.Int64Value(i); v.AsInt64() != i || v.Type() != attribute.INT64 {
+				k.Violate("constructor-value-differs", "Int64Value", fmt.Sprintf("given %d holds %d", i, v.AsInt64()), nil)
+			}
+			if v := attribute.StringValue(str); v.AsString() != str || v.Type() != attribute.STRING {
+				k.Violate("constructor-value-differs", "StringValue", fmt.Sprintf("given %q holds %q", str, v.AsString()), nil)
+			}
+			if v := attribute.BoolValue(b); v.AsBool() != b || v.Type() != attribute.BOOL {
+				k.Violate("constructor-value-differs", "BoolValue", "", nil)
+			}
+			fs := []float64{f, -f, 0, math.Copysign(0, -1)}
+			if got := attribute.Float64SliceValue(fs).AsFloat64Slice(); len(got) != 4 || math.Float64bits(got[0]) != math.Float64bits(f) || math.Float64bits(got[3]) != math.Float64bits(fs[3]) || math.Float64bits(got[2]) != 0 {
+				k.Violate("constructor-value-differs", "Float64SliceValue", fmt.Sprintf("given %v holds %v", fs, got), nil)
+			}
+			k.C.Count("scalar_cases", 1)
+			k.C.Sig(fmt.Sprintf("scalars|%v|%v|%v", f == 0, f != f, math.Signbit(f)))
+		})
+
 		c.Cases("sets", c.N(80_000, 1_200_000), 0, func(k *vf.Case) {
 			r := k.R
 			in := genKVs(r)
